@@ -118,7 +118,7 @@ def safeRows : List ExecAcc := [
   { ty := "yieldMarker", fn := "exec", ptr := true, kind := "escape", path := "$", sink := "arg0 vm.push", guard := "", isLocal := false }
 ]
 
-/-- The rows of the pinned source that are NOT harmless (finding "tagged-template-object-shared-across-runtimes-race"):
+/-- The rows of the source BEFORE fix 85b307c that were NOT harmless (finding "tagged-template-object-shared-across-runtimes-race"):
 the compiled slices of *valueProperty slots become the backing store of the template arrays of every runtime, and
 Object.freeze / defineProperty / … on such an array write the slots. -/
 def templateSharedRows : List ExecAcc := [
@@ -191,9 +191,10 @@ def cfgProg (c : Cfg) : List PInstr :=
   [.loadFlag c.flagSync, .brSet] ++ (if c.useOnce then [.onceBegin] else []) ++
   [.scanStore, .storeFlag c.flagSync] ++ (if c.useOnce then [.onceEnd] else []) ++ [.label]
 
-/-- The protocol as coded at the pinned commit: `if !i.scanned { i.u = Scan(i.s); i.scanned = true }`. -/
+/-- The protocol before fix 7f47297: `if !i.scanned { i.u = Scan(i.s); i.scanned = true }` (regression lemmas only). -/
 def unsyncCfg : Cfg := ⟨.plain, false⟩
-/-- Once-style protocol: `if !i.scanned.Load() { i.once.Do(func(){ i.u = Scan(i.s); i.scanned.Store(true) }) }`. -/
+/-- The protocol as coded (string_imported.go scan/ensureScanned):
+`if !i.scanned.Load() { i.scanOnce.Do(func(){ i.u = Scan(i.s); i.scanned.Store(true) }) }`. -/
 def onceCfg : Cfg := ⟨.atomic, true⟩
 
 def allCfgs : List Cfg := [⟨.plain, false⟩, ⟨.plain, true⟩, ⟨.atomic, false⟩, ⟨.atomic, true⟩]
